@@ -96,7 +96,8 @@ namespace vu
    template< typename R > using rot_r = rotate_states_right< base_ctl< R > >;
    template< typename R > using rev = reverse_states< base_ctl< R > >;
 
-   struct P1m : P1 { static constexpr const char* error_message = "p1"; };
+   struct P1m : P1 { static constexpr const char* error_message = "p1"; };                          // the pointer form of a custom message
+   struct P1a : P1 { static constexpr const char error_message[] = "p1 as an array"; };             // the array form (what raise_message<> uses)
    template< typename > inline constexpr const char* errmsg = nullptr;
    template<> inline constexpr const char* errmsg< P1 > = "p1 failed";
    struct Errors { template< typename R > static constexpr const char* message = errmsg< R >; };
@@ -200,6 +201,8 @@ namespace vu
       normal< P1m >::raise( cin, st );
       normal< P1 >::raise_nested( cin, st );
       normal< P1m >::raise_nested( cin.position(), st );
+      normal< P1a >::raise( cin, st );
+      normal< P1a >::raise_nested( cin.position(), st );
 #endif
       return r;
    }
